@@ -161,13 +161,15 @@ func (c Conc) checkObs1(n datamodel.Node, v Value, o ObsOpts, path string) *Mism
 				m.Field = "LookupByString:" + m.Field
 				return m
 			}
-			got, err = n.LookupByNode(basicnode.NewString(key))
-			if err != nil {
-				return mm(path, "LookupByNode", "ok:"+strconv.Quote(key), err)
-			}
-			if m := c.checkObs(got, v.Vs[i], light, path+"/"+key); m != nil {
-				m.Field = "LookupByNode:" + m.Field
-				return m
+			if !o.PrimaryOnly { // a key node of ANOTHER implementation: secondary (typed maps may want their own key type)
+				got, err = n.LookupByNode(basicnode.NewString(key))
+				if err != nil {
+					return mm(path, "LookupByNode", "ok:"+strconv.Quote(key), err)
+				}
+				if m := c.checkObs(got, v.Vs[i], light, path+"/"+key); m != nil {
+					m.Field = "LookupByNode:" + m.Field
+					return m
+				}
 			}
 			got, err = n.LookupBySegment(datamodel.PathSegmentOfString(key))
 			if err != nil {
